@@ -475,7 +475,7 @@ macro_rules! threefish_type {
 // @ob name=t256_enc props=C10,C20 kind=contract fn=threefish::Threefish256::encrypt_block_u64 uses=c_mix timeout=600
 // @ob name=t256_dec props=C10,C20 kind=contract fn=threefish::Threefish256::decrypt_block_u64 uses=c_inv_mix timeout=600
 // @ob name=t256_bytes props=C10,C20 kind=contract fn=threefish::Threefish256::encrypt_block,threefish::Threefish256::decrypt_block uses=t256_enc,t256_dec timeout=300
-// @ob name=t256_api props=C10,C20 kind=contract fn=threefish::Threefish256::new,threefish::Threefish256::new_with_tweak,threefish::Threefish256::encrypt_block,threefish::Threefish256::decrypt_block uses=c_mix,c_inv_mix timeout=900
+// @ob name=t256_api props=C10,C20 kind=contract tier=thorough fn=threefish::Threefish256::new,threefish::Threefish256::new_with_tweak,threefish::Threefish256::encrypt_block,threefish::Threefish256::decrypt_block uses=c_mix,c_inv_mix timeout=1800
 // @ob name=t256_rt1 props=C01 kind=lemma fn=threefish::Threefish256::encrypt_block_u64,threefish::Threefish256::decrypt_block_u64 uses=l_mix_inverse timeout=600
 // @ob name=t256_rt2 props=C01 kind=lemma fn=threefish::Threefish256::encrypt_block_u64,threefish::Threefish256::decrypt_block_u64 uses=l_mix_inverse timeout=600
 // @ob name=t256_keylen props=C11 kind=bounded bound="slice length <= 300" fn=threefish::Threefish256::new_from_slice timeout=300
@@ -492,7 +492,7 @@ threefish_type!(Threefish256, nw=4, ns=19, uf=uf4, ox=ox4, name="Threefish256";
 // @ob name=t512_enc props=C10,C20 kind=contract fn=threefish::Threefish512::encrypt_block_u64 uses=c_mix timeout=600
 // @ob name=t512_dec props=C10,C20 kind=contract fn=threefish::Threefish512::decrypt_block_u64 uses=c_inv_mix timeout=600
 // @ob name=t512_bytes props=C10,C20 kind=contract fn=threefish::Threefish512::encrypt_block,threefish::Threefish512::decrypt_block uses=t512_enc,t512_dec timeout=300
-// @ob name=t512_api props=C10,C20 kind=contract fn=threefish::Threefish512::new,threefish::Threefish512::new_with_tweak,threefish::Threefish512::encrypt_block,threefish::Threefish512::decrypt_block uses=c_mix,c_inv_mix timeout=900
+// @ob name=t512_api props=C10,C20 kind=contract tier=thorough fn=threefish::Threefish512::new,threefish::Threefish512::new_with_tweak,threefish::Threefish512::encrypt_block,threefish::Threefish512::decrypt_block uses=c_mix,c_inv_mix timeout=2400
 // @ob name=t512_rt1 props=C01 kind=lemma fn=threefish::Threefish512::encrypt_block_u64,threefish::Threefish512::decrypt_block_u64 uses=l_mix_inverse timeout=600
 // @ob name=t512_rt2 props=C01 kind=lemma fn=threefish::Threefish512::encrypt_block_u64,threefish::Threefish512::decrypt_block_u64 uses=l_mix_inverse timeout=600
 // @ob name=t512_keylen props=C11 kind=bounded bound="slice length <= 300" fn=threefish::Threefish512::new_from_slice timeout=300
@@ -509,7 +509,7 @@ threefish_type!(Threefish512, nw=8, ns=19, uf=uf8, ox=ox8, name="Threefish512";
 // @ob name=t1024_enc props=C10,C20 kind=contract fn=threefish::Threefish1024::encrypt_block_u64 uses=c_mix timeout=600
 // @ob name=t1024_dec props=C10,C20 kind=contract fn=threefish::Threefish1024::decrypt_block_u64 uses=c_inv_mix timeout=600
 // @ob name=t1024_bytes props=C10,C20 kind=contract fn=threefish::Threefish1024::encrypt_block,threefish::Threefish1024::decrypt_block uses=t1024_enc,t1024_dec timeout=300
-// @ob name=t1024_api props=C10,C20 kind=contract fn=threefish::Threefish1024::new,threefish::Threefish1024::new_with_tweak,threefish::Threefish1024::encrypt_block,threefish::Threefish1024::decrypt_block uses=c_mix,c_inv_mix timeout=900
+// @ob name=t1024_api props=C10,C20 kind=contract tier=thorough fn=threefish::Threefish1024::new,threefish::Threefish1024::new_with_tweak,threefish::Threefish1024::encrypt_block,threefish::Threefish1024::decrypt_block uses=c_mix,c_inv_mix timeout=3600
 // @ob name=t1024_rt1 props=C01 kind=lemma tier=thorough fn=threefish::Threefish1024::encrypt_block_u64,threefish::Threefish1024::decrypt_block_u64 uses=l_mix_inverse timeout=2400
 // @ob name=t1024_rt2 props=C01 kind=lemma tier=thorough fn=threefish::Threefish1024::encrypt_block_u64,threefish::Threefish1024::decrypt_block_u64 uses=l_mix_inverse timeout=2400
 // @ob name=t1024_keylen props=C11 kind=bounded bound="slice length <= 300" fn=threefish::Threefish1024::new_from_slice timeout=300
